@@ -864,11 +864,15 @@ class VirtualFS:
     """open() inside cardutil's command line modules: named RopeFiles (binary) / CSV stubs (text); no real file is touched"""
     def __init__(self):
         self.files = {}
+        self.opened = []
 
     def reset(self):
         self.files = {}
+        self.opened = []
 
     def open(self, name, mode='r', *a, **kw):
+        enc = kw.get('encoding', a[1] if len(a) > 1 else None)
+        self.opened.append({'name': name, 'mode': mode, 'encoding': enc, 'newline': kw.get('newline')})
         if 'b' in mode:
             if 'w' in mode:
                 f = RopeFile()
